@@ -139,18 +139,24 @@ impl<K, S: VStream> StreamMap<K, S> {
     pub uninterp spec fn yielded_keys(&self) -> Seq<K>;           // the key of the inner stream each item came from
     pub uninterp spec fn empty(&self) -> bool;
     pub uninterp spec fn budget(&self) -> nat;
-    #[verifier::external_body] pub fn new() -> (r: Self) ensures r.yielded() == Seq::<S::Item>::empty(), r.empty(), r.budget() == 0 { unimplemented!() }
+    // every key a stream was ever inserted under (ghost history; streams that ended are forgotten by the map, their keys are not)
+    pub uninterp spec fn ever(&self) -> Set<K>;
+    #[verifier::external_body] pub fn new() -> (r: Self) ensures r.yielded() == Seq::<S::Item>::empty(), r.empty(), r.budget() == 0, r.ever() == Set::<K>::empty() { unimplemented!() }
     #[verifier::external_body] pub fn is_empty(&self) -> (r: bool) ensures r == self.empty() { unimplemented!() }
     #[verifier::external_body] pub fn len(&self) -> (r: usize) ensures (r == 0) == self.empty() { unimplemented!() }
     #[verifier::external_body] pub fn contains_key(&self, k: &K) -> (r: bool) { unimplemented!() }
     #[verifier::external_body] pub fn remove(&mut self, k: &K) -> (r: Option<S>)
-        ensures final(self).yielded() == old(self).yielded(), final(self).yielded_keys() == old(self).yielded_keys(), final(self).budget() <= old(self).budget() { unimplemented!() }
+        ensures final(self).yielded() == old(self).yielded(), final(self).yielded_keys() == old(self).yielded_keys(), final(self).budget() <= old(self).budget(), final(self).ever() == old(self).ever() { unimplemented!() }
+    // The routers key each peer's stream by an id that also tags its traffic (the `cid` of a requestor, the id of a publisher): an id
+    // names ONE stream for the life of the topic, so a key that was ever used is never handed to another stream.
     #[verifier::external_body] pub fn insert(&mut self, k: K, st: S) -> (r: Option<S>)
-        ensures !final(self).empty(), final(self).yielded() == old(self).yielded(), final(self).yielded_keys() == old(self).yielded_keys(), final(self).budget() == old(self).budget() + st.budget() { unimplemented!() }
+        requires !old(self).ever().contains(k),                                                                          // [C02.stream_ids_never_reused C04.stream_ids_never_reused]
+        ensures final(self).ever() == old(self).ever().insert(k), !final(self).empty(), final(self).yielded() == old(self).yielded(), final(self).yielded_keys() == old(self).yielded_keys(), final(self).budget() == old(self).budget() + st.budget() { unimplemented!() }
     #[verifier::external_body] pub fn poll_next(&mut self, cx: &mut Context) -> (r: Poll<Option<(K, S::Item)>>)
         ensures
             r matches Poll::Ready(Some(kv)) ==> final(self).yielded() == old(self).yielded().push(kv.1) && final(self).yielded_keys() == old(self).yielded_keys().push(kv.0) && final(self).budget() < old(self).budget(),
             !(r matches Poll::Ready(Some(_))) ==> final(self).yielded() == old(self).yielded() && final(self).yielded_keys() == old(self).yielded_keys() && final(self).budget() == old(self).budget() && final(self).empty() == old(self).empty(),
+            final(self).ever() == old(self).ever(),
             (r matches Poll::Ready(None)) <==> old(self).empty(),
             r is Pending ==> final(cx).armed_src() == old(cx).armed_src().insert(SRC_STREAMS()),
             r is Ready ==> final(cx).armed_src() == old(cx).armed_src().remove(SRC_STREAMS()),
